@@ -678,8 +678,12 @@ class Evaluator:
         elif isinstance(st, ast.Expr) and isinstance(st.value, ast.Yield):
             self._emit(self.ev(st.value.value) if st.value.value is not None else None)
         elif isinstance(st, ast.Expr) and isinstance(st.value, ast.YieldFrom):
-            for item_ in self.ev(st.value.value):
-                self._emit(item_)
+            inner_ = self.ev(st.value.value)
+            if isinstance(inner_, _LazyGen) and not inner_._started and getattr(self, "on_yield", None) is not None:
+                inner_.run_inline(self.on_yield)   # `yield from` a fresh lifted generator: its body runs here, its items go to our consumer
+            else:
+                for item_ in inner_:
+                    self._emit(item_)
         elif isinstance(st, ast.Expr):
             if isinstance(st.value, ast.Constant):
                 return
@@ -970,6 +974,11 @@ class _LazyGen:
     def __init__(self, ev, body):
         import threading
 
+        import sys as _sys
+
+        if _sys.getrecursionlimit() < 60000:
+            _sys.setrecursionlimit(60000)
+        threading.stack_size(512 * 1024 * 1024)   # delegated generators recurse in one helper thread
         self._want = threading.Semaphore(0)
         self._have = threading.Semaphore(0)
         self._item = None
@@ -994,7 +1003,17 @@ class _LazyGen:
             self._done = True
             self._have.release()
 
+        self._ev, self._body = ev, body
         self._thread = threading.Thread(target=run, daemon=True)
+
+    def run_inline(self, on_yield):
+        """Execute the body in the caller's thread, handing every item to `on_yield` (delegation by `yield from`)."""
+        self._started = True
+        self._ev.on_yield = on_yield
+        kind, val = self._ev.run(self._body)
+        self._done = True
+        if kind == "raise":
+            raise getattr(self._ev, "last_raised", None) or Raised(val)
 
     def __iter__(self):
         return self
